@@ -64,6 +64,9 @@ func ttlDump(c *Cli) map[string]int {
 type c09Dataset struct {
 	Name string
 	Cmds [][]string
+	// Advance: seconds of virtual time that pass right before the rewrite (sweeper frozen):
+	// objects may then be past their deadline and still present
+	Advance float64
 }
 
 func c09Datasets(tier string) []c09Dataset {
@@ -77,20 +80,25 @@ func c09Datasets(tier string) []c09Dataset {
 		}
 		return out
 	}
-	ds = append(ds, c09Dataset{"empty", nil})
-	ds = append(ds, c09Dataset{"9-collections", many(9, 2)})
-	ds = append(ds, c09Dataset{"17-collections", many(17, 1)})
-	ds = append(ds, c09Dataset{"33-ids", many(1, 33)})
-	ds = append(ds, c09Dataset{"65-ids", many(2, 65)})
+	ds = append(ds, c09Dataset{Name: "empty", Cmds: nil})
+	ds = append(ds, c09Dataset{Name: "9-collections", Cmds: many(9, 2)})
+	ds = append(ds, c09Dataset{Name: "17-collections", Cmds: many(17, 1)})
+	ds = append(ds, c09Dataset{Name: "33-ids", Cmds: many(1, 33)})
+	ds = append(ds, c09Dataset{Name: "65-ids", Cmds: many(2, 65)})
+	// an object past its deadline that the sweeper has not removed yet, with ids before and after it
+	ds = append(ds, c09Dataset{Name: "past-deadline", Advance: 0.07, Cmds: [][]string{
+		w("SET kp a POINT 1 1"), w("SET kp b POINT 1 2"), w("SET kp c EX 0.05 POINT 1 3"), w("SET kp d POINT 1 4"), w("SET kp e FIELD n 5 POINT 1 5"), w("SET kp f STRING tail"),
+		w("SET kq a EX 0.05 STRING first"), w("SET kq b POINT 2 2"),
+	}})
 	fence := func(k string) []string { return w("NEARBY " + k + " FENCE POINT 50 50 100") }
-	ds = append(ds, c09Dataset{"kinds", [][]string{
+	ds = append(ds, c09Dataset{Name: "kinds", Cmds: [][]string{
 		w("SET k1 p POINT 1 2"), w("SET k1 pz POINT 1 2 3"), w("SET k1 b BOUNDS 1 2 3 4"), w("SET k1 h HASH 9tbnwg"),
 		{"SET", "k1", "poly", "OBJECT", gPoly}, {"SET", "k1", "feat", "OBJECT", gFeature}, {"SET", "k1", "empty", "OBJECT", gEmpty}, {"SET", "k1", "line", "OBJECT", gLine},
 		{"SET", "k1", "mp", "OBJECT", `{"type":"MultiPoint","coordinates":[[1,1],[2,2]]}`},
 		w("SET k1 s STRING hello"), {"SET", "k1", "sj", "STRING", `{"x":1}`}, {"SET", "k1", "sq", "STRING", "quote\" back\\slash \r\n nl \x00 nul \xff"},
 		{"SET", "k1", "sp ace", "STRING", "id with space"},
 	}})
-	ds = append(ds, c09Dataset{"fields", [][]string{
+	ds = append(ds, c09Dataset{Name: "fields", Cmds: [][]string{
 		w("SET k1 a FIELD n 1 FIELD neg -1.5 FIELD big 1e300 POINT 1 2"),
 		w("SET k1 b FIELD s str FIELD S UPPER POINT 1 2"),
 		{"SET", "k1", "c", "FIELD", "j", `{"x":[1,2,{"y":"z"}]}`, "FIELD", "t", "true", "FIELD", "f", "false", "FIELD", "nul", "null", "POINT", "1", "2"},
@@ -101,11 +109,11 @@ func c09Datasets(tier string) []c09Dataset {
 		{"SET", "k1", "g", "FIELD", "qnum", `"123"`, "FIELD", "qtrue", `"true"`, "FIELD", "qobj", `"{\"a\":1}"`, "FIELD", "qpad", `" padded "`, "FIELD", "qnull", `"null"`, "FIELD", "qempty", `""`, "POINT", "1", "2"},
 		w("FSET k1 a later 42"),
 	}})
-	ds = append(ds, c09Dataset{"deadlines", [][]string{
+	ds = append(ds, c09Dataset{Name: "deadlines", Cmds: [][]string{
 		w("SET k1 soon EX 0.05 POINT 1 2"), w("SET k1 sec EX 1 POINT 1 2"), w("SET k1 far EX 100 POINT 1 2"), w("SET k1 str EX 100 STRING v"),
 		w("SET k1 keep POINT 1 2"), w("EXPIRE k1 keep 50.5"), w("SET k2 x EX 100 POINT 1 2"), w("PERSIST k2 x"),
 	}})
-	ds = append(ds, c09Dataset{"hooks", [][]string{
+	ds = append(ds, c09Dataset{Name: "hooks", Cmds: [][]string{
 		append(w("SETHOOK h1 http://127.0.0.1:1/a"), fence("k9")...),
 		append(w("SETHOOK h2 http://127.0.0.1:1/a,http://127.0.0.1:1/b META m1 v1 META m2 v2 EX 100"), w("WITHIN k9 FENCE DETECT enter,exit BOUNDS 50 50 51 51")...),
 		append(w("SETCHAN c1"), fence("k9")...),
@@ -114,7 +122,7 @@ func c09Datasets(tier string) []c09Dataset {
 		append(w("SETCHAN c4"), w("WITHIN k9 MATCH a* WHERE f 1 2 FENCE NODWELL CIRCLE 50 50 100")...),
 		w("SET k9 inside POINT 50 50"),
 	}})
-	ds = append(ds, c09Dataset{"history", [][]string{
+	ds = append(ds, c09Dataset{Name: "history", Cmds: [][]string{
 		w("SET k1 a POINT 1 2"), w("SET k1 a POINT 3 4"), w("SET k1 b POINT 1 2"), w("DEL k1 b"), w("SET k2 x STRING v"), w("RENAME k2 k3"),
 		w("SET k4 y POINT 1 1"), w("DROP k4"), {"JSET", "k3", "x2", "p", "1"}, w("PDEL k1 zz*"),
 	}})
@@ -175,6 +183,10 @@ func checkC09Seq(job *Job, res *Result) {
 				viol("restart-before-shrink", fmt.Sprintf("plain restart differs: %s vs %s", vclip(r, 300), vclip(before, 300)))
 			}
 			szBefore := c.Do("SERVER")
+			if d.Advance > 0 {
+				vsched.Sleep(int64(d.Advance * float64(stdtime.Second)))
+				vsched.Quiesce()
+			}
 			if r := waitShrink(in, c); r != "+OK" {
 				viol("shrink", "AOFSHRINK -> "+r)
 			}
